@@ -602,10 +602,12 @@ func (self *Core) runInstruction(instruction compiler.Instruction) *value.VmInte
 			return i
 		}
 
+		// The span has to be read before the instruction pointer moves on
+		span := self.parent.SourceMap(*self.callFrame())
 		self.callFrame().InstructionPointer++
 
 		return value.NewVMThrowInterrupt(
-			self.parent.SourceMap(*self.callFrame()),
+			span,
 			display,
 		)
 	case compiler.Opcode_SetTryLabel:
